@@ -247,9 +247,11 @@ class C09(Check):
                   'event by event (kind and result), else the case fails. NOT observed: the plain reads of `ref` in front of an atomic operation and the '
                   'plain reads of the payload other than Memory::copy / the container copy (their place in the order is tied only through the branch '
                   'they decide and through ASan when they hit released memory); the counter value of an `r` event is read by the harness in the same '
-                  'scheduling segment as the library reads it, not by the library. Scope of the concurrent model: there is no scheduling point between '
-                  'the plain read `ref == 1` and the in-place write that follows it (the machine allows other threads in between, the harness never '
-                  'produces that); the in-place write, together with String\'s read of length and capacity, is one atomic step; Variant::clear / '
+                  'scheduling segment as the library reads it, not by the library; events carry no block identity (the counter values returned tie '
+                  'them to a block only indirectly). Scope of the concurrent model: for String, and for Variant containers of integers, there is no '
+                  'scheduling point between the plain read `ref == 1` / `ref > 1` and the in-place write that follows it (the machine allows other '
+                  'threads in between, the harness produces that only where the modification itself counts nested payloads: Xml children, map keys, '
+                  'inner strings); the in-place write, together with String\'s read of length and capacity, is one atomic step; Variant::clear / '
                   'Xml::Variant::clear / `p = 0` are driven concurrently as what the destructor does (they are the same code), String::clear as clear '
                   'followed by the destructor; handles never travel between threads. Free-running real threads (schedules the OS produced) under '
                   'ASan/UBSan are compared on their end state only; they are also run under TSan as a search oracle only (a plain write racing with an '
